@@ -966,7 +966,11 @@ func vC03Judge(c *vh.Case, n *vNet, sc *vC03Sc, cm vC03Cancel, out *vC03Out, log
 			}
 			c.Clause("cancel-prompt")
 			if o.TRet.After(lim.Add(vC03Eps)) {
-				c.FailSig("cancel-prompt", "cancel-prompt@"+vC03OpName(sc, o), "%s returned %v after its context ended (cancel mode %s at +%v, return at +%v, error %v)", vC03OpName(sc, o), o.TRet.Sub(lim), cm.Mode, tc.Sub(t0), o.TRet.Sub(t0), o.Err)
+				class := "during" // input class: context over at the call, or ended while the operation ran
+				if !tc.After(o.TCall) {
+					class = "before-call"
+				}
+				c.FailSig("cancel-prompt", "cancel-prompt@"+vC03OpName(sc, o)+":"+class, "%s returned %v after its context ended (cancel mode %s at +%v, return at +%v, error %v)", vC03OpName(sc, o), o.TRet.Sub(lim), cm.Mode, tc.Sub(t0), o.TRet.Sub(t0), o.Err)
 			}
 			if o.TRet.After(tc) || inflight > 0 {
 				continue
